@@ -153,7 +153,7 @@ func minU32(a, b uint32) uint32 {
 
 type cutSignal struct{}
 
-const cellDeadline = 90 * time.Second
+const cellDeadline = 300 * time.Second // (a 17-required-set recipe takes about 30 s on an idle machine; checks run several at once)
 
 // withDeadline runs f and reports whether it finished in time (f keeps running otherwise; the caller exits the process).
 func withDeadline(f func(), d time.Duration) bool {
